@@ -91,8 +91,27 @@ for case in req["cases"]:
                     row["prior_dim_mismatch"] += dims_ok(pc, pk.get("bond_threshold", 0.65), pk.get("radii", "covalent"))
                 except ValueError:
                     pass
+            if case["id"] % 2 == 1:
+                # history: THE SAME Atoms object, clustered before by the shared instance, is edited in place (atoms re-ordered,
+                # a third of them relabelled) and handed in again; the reference is a fresh SBC on a copy of the edited object
+                try:
+                    shared.get_clusters(at, **kw)
+                except ValueError:
+                    pass
+                order = list(range(len(at)))
+                r_.shuffle(order)
+                z = at.get_atomic_numbers()[order]
+                for i in range(len(z)):
+                    if r_.random() < 0.33:
+                        z[i] = 79 if z[i] != 79 else 47
+                at.set_positions(at.get_positions()[order])
+                at.set_atomic_numbers(z)
+                if isinstance(kw.get("radii"), np.ndarray):
+                    kw["radii"] = kw["radii"][order]
+                radii = kw.get("radii", "covalent")
+                row["inplace_edit"] = True
             got = shared.get_clusters(at, **kw)
-            ref = SBC().get_clusters(at, **kw)
+            ref = SBC().get_clusters(at.copy(), **kw)
             row["same_as_fresh"] = canon(got) == canon(ref)
             row["clusters_shared"] = canon(got)[:6]
             row["clusters_fresh"] = canon(ref)[:6]
